@@ -138,6 +138,36 @@ fn raw_builder(ty: u64, rows: usize, cols: usize) -> Builder<Vec<u8>> {
     Builder::verif_new_type_with_cache(Vec::new(), ty, rows, cols).unwrap()
 }
 
+/// Several extend_iter / extend_stream calls on ONE builder: a batch stops at its first rejected item (that error is
+/// the batch's result) and the builder is used further with the next batch.
+pub fn exec_batches(fe: &str, ty: u64, rows: usize, cols: usize, batches: &[Vec<Op>]) -> BuildOut {
+    let mut results = vec![];
+    let mut bw = String::new();
+    macro_rules! run {
+        ($b:expr, $call:expr) => {{
+            let mut b = $b;
+            for batch in batches {
+                let kvs: Vec<(Vec<u8>, u64)> = batch.iter().map(|o| (o.key().to_vec(), o.val())).collect();
+                let ks: Vec<Vec<u8>> = batch.iter().map(|o| o.key().to_vec()).collect();
+                let r = $call(&mut b, kvs, ks);
+                results.push(fmt_res(&r));
+                bw.push_str(&format!("{},", b.bytes_written()));
+            }
+            b.into_inner().ok()
+        }};
+    }
+    let bytes = match fe {
+        "raw_iter" => run!(raw_builder(ty, rows, cols), |b: &mut Builder<Vec<u8>>, kvs: Vec<(Vec<u8>, u64)>, _ks| b.extend_iter(kvs.into_iter().map(|(k, v)| (k, Output::new(v))))),
+        "raw_stream" => run!(raw_builder(ty, rows, cols), |b: &mut Builder<Vec<u8>>, kvs: Vec<(Vec<u8>, u64)>, _ks| b.extend_stream(VecStream { items: kvs, pos: 0 })),
+        "map_iter" => run!(fst::MapBuilder::new(Vec::new()).unwrap(), |b: &mut fst::MapBuilder<Vec<u8>>, kvs: Vec<(Vec<u8>, u64)>, _ks| b.extend_iter(kvs.into_iter())),
+        "map_stream" => run!(fst::MapBuilder::new(Vec::new()).unwrap(), |b: &mut fst::MapBuilder<Vec<u8>>, kvs: Vec<(Vec<u8>, u64)>, _ks| b.extend_stream(MapVecStream { items: kvs, pos: 0 })),
+        "set_iter" => run!(fst::SetBuilder::new(Vec::new()).unwrap(), |b: &mut fst::SetBuilder<Vec<u8>>, _kvs, ks: Vec<Vec<u8>>| b.extend_iter(ks.into_iter())),
+        "set_stream" => run!(fst::SetBuilder::new(Vec::new()).unwrap(), |b: &mut fst::SetBuilder<Vec<u8>>, _kvs, ks: Vec<Vec<u8>>| b.extend_stream(KeyStream { items: ks, pos: 0 })),
+        _ => panic!("front end for batches"),
+    };
+    BuildOut { results, bytes, bw, stats: None }
+}
+
 /// Run a build through the named front end. `sem` is calls | extend | fromiter.
 pub fn exec_build(sem: &str, fe: &str, ty: u64, rows: usize, cols: usize, ops: &[Op]) -> BuildOut {
     let all_insert = ops.iter().all(|o| matches!(o, Op::Insert(..)));
@@ -325,8 +355,15 @@ pub fn exec_build_case(rest: &str) -> String {
     let ty: u64 = p[2].parse().unwrap();
     let rows: usize = p[3].parse().unwrap();
     let cols: usize = p[4].parse().unwrap();
-    let ops = parse_ops(p[5]);
-    let out = exec_build(sem, fe, ty, rows, cols, &ops);
+    let (ops, out) = if sem == "batches" {
+        let batches: Vec<Vec<Op>> = p[5].split('|').map(parse_ops).collect();
+        let out = exec_batches(fe, ty, rows, cols, &batches);
+        (batches.concat(), out)
+    } else {
+        let ops = parse_ops(p[5]);
+        let out = exec_build(sem, fe, ty, rows, cols, &ops);
+        (ops, out)
+    };
     let mut x = String::from("ok");
     let s = match &out.bytes {
         Some(bytes) => match Fst::new(bytes.clone()) {
@@ -352,7 +389,7 @@ pub fn exec_build_case(rest: &str) -> String {
                         x = e;
                     }
                 }
-                if x == "ok" && ty == 0 && (rows, cols) == (drows(), dcols()) && ops.iter().map(|o| o.key().len() + 1).sum::<usize>() <= 8192 {
+                if x == "ok" && sem != "batches" && ty == 0 && (rows, cols) == (drows(), dcols()) && ops.iter().map(|o| o.key().len() + 1).sum::<usize>() <= 8192 {
                     if let Err(e) = crate::wrap::builder_wrappers(fe, &ops, sem != "calls", bytes) {
                         x = e;
                     }
